@@ -91,12 +91,12 @@ class C14(Prop):
         res = [r for r in results if r[0] == "jsonsnap"]
         jops = [o for o in ops if o[0] == "jsonsnap"]
         if len(res) != len(jops):
-            return []
+            return self.skip("guard")
         texts = [(r[2].get("valid"), r[2].get("text")) for r in res]
         # groups: same AST (up to whitespace / member order under sorting) => same text, valid, lossless
         raw_ops = [o for o in case["ops"] if o["op"] == "jsonsnap"]
         if len(raw_ops) != len(texts):
-            return []
+            return self.skip("guard")
         by_grp = {}
         for raw, vt in zip(raw_ops, texts):
             if "grp" in raw:
